@@ -283,6 +283,9 @@ class PyExtractor(Base):
                 p.mw.append((self.ev(p, tg.slice), v, tuple(p.guards), line))
                 p.epoch += 1
                 return
+        if isinstance(tg, ast.Attribute) and isinstance(tg.value, ast.Name) and tg.value.id == 'self':
+            p.events.append(('attr', tg.attr, v, tuple(p.guards), line))
+            return
         raise Unsupported('assignment target ' + ast.unparse(tg))
 
     def run(self, paths, body):
@@ -511,7 +514,7 @@ class CExtractor(Base):
                 b = self.ev(p, inner[2])
                 if a == b:
                     return a
-                return ('ite', ('bool', c), a, b)
+                return ('ite', mk_bool(c), a, b)
             return mk_ite(c, self.ev(p, inner[1]), self.ev(p, inner[2]))
         if k == 'CallExpr':
             return self.call(p, n)
@@ -640,6 +643,9 @@ class CExtractor(Base):
             if bs == ('sym', '$mem128'):
                 p.events.append(('map', self.ev(p, inner[1]), v, line))
                 return
+            if bs == ('sym', '$args'):
+                p.events.append(('attr', 'args', v, tuple(p.guards), line))     # hit/miss counters kept in the args array
+                return
         if k == 'MemberExpr':
             base = self.ev(p, inner[0]) if inner else None
             if base == ('sym', '$self'):
@@ -697,8 +703,8 @@ class CExtractor(Base):
                 b = self.run([p.fork()], els) if els is not None else [p.fork()]
                 if len(a) == 1 and len(b) == 1 and a[0].mw == b[0].mw and a[0].regs == b[0].regs:
                     return a
-                for q in a: q.guards.append(('bool', cond))
-                for q in b: q.guards.append(('not', ('bool', cond)))
+                for q in a: q.guards.append(mk_bool(cond))
+                for q in b: q.guards.append(mk_not(cond))
                 return a + b
             if cond[0] == 'pyobj':
                 # result of a Python call: NULL only when the tracer raised; the error path is not modelled
@@ -810,6 +816,12 @@ def _assume(t, atom, positive):
     elif atom[0] == '!=' and isc(atom[2]) and not positive:
         mapping[atom[1]] = atom[2]
         mapping[atom] = C(0)
+    elif atom[0] == '!=' and atom[2] == C(0) and positive and mask_of(atom[1]) == 1:
+        mapping[atom[1]] = C(1)
+        mapping[atom] = C(1)
+    elif atom[0] == '==' and atom[2] == C(0) and not positive and mask_of(atom[1]) == 1:
+        mapping[atom[1]] = C(1)
+        mapping[atom] = C(0)
     else:
         mapping[atom] = C(1 if positive else 0)
     return subst(t, mapping)
@@ -896,3 +908,21 @@ def equivalent(a, b):
     a3 = refine(a2, allat)
     b3 = refine(b2, allat)
     return a3 == b3, a3, b3
+
+
+def simplify_under_guards(items):
+    """Rewrite each path's effect terms under the assumptions its own guards provide."""
+    out = set()
+    for g, e in items:
+        cur = e
+        for x in sorted(g, key=repr):
+            if x[0] == 'not':
+                atom, pos = x[1], False
+            else:
+                atom, pos = x, True
+            if atom[0] in ('and', 'or'):
+                continue
+            f = lambda t, a=atom, p=pos: _assume(t, a, p)
+            cur = _map_effects(cur, f)
+        out.add((g, cur))
+    return _merge(out)
